@@ -371,7 +371,7 @@ func (u *c11Run) faithful(cfg *types.Config, cond string) {
 			next = "with"
 		case len(s.Order) > 0:
 			next = "order_by"
-		case s.Limit > 0:
+		case s.Limit > 0 || s.LimitZero:
 			next = "limit"
 		}
 		u.viol("faithful.having_text", "Having", fmt.Sprintf("Config.Having=%q, written HAVING predicate %q", cfg.Having, wantH), "having_followed_by", next, "has_having", fmt.Sprint(s.Having != nil))
@@ -1019,7 +1019,7 @@ func execC11Stmt(ctx *core.Ctx, ref core.CaseRef, r *rand.Rand, nLayouts int) {
 				u.viol("layout.result_differs", cause, fmt.Sprintf("EmitSync results differ between the canonical layout and layout %s:\n canonical: %s\n layout:    %s\nlayout text: %q", c.Layouts[i].features(), core.J(outs[0]), core.J(outs[i]), c.Texts[i]), "cause", cause)
 			}
 		}
-		if s.Family == "direct" && !s.Distinct && s.Limit == 0 && outs[0].Err == "" && s.Undoc == "" {
+		if s.Family == "direct" && !s.Distinct && s.Limit == 0 && !s.LimitZero && outs[0].Err == "" && s.Undoc == "" {
 			u.refDirect(outs[0])
 		}
 	case "agg":
@@ -1030,7 +1030,7 @@ func execC11Stmt(ctx *core.Ctx, ref core.CaseRef, r *rand.Rand, nLayouts int) {
 		}
 		c.Rows = rows
 		expect := len(keys)
-		settle := s.Having != nil || s.Limit > 0
+		settle := s.Having != nil || s.Limit > 0 || s.LimitZero
 		outs := make([]c11Out, len(c.Texts))
 		for i, t := range c.Texts {
 			o, quiet := c11RunAgg(t, rows, expect, settle)
@@ -1062,7 +1062,7 @@ func execC11Stmt(ctx *core.Ctx, ref core.CaseRef, r *rand.Rand, nLayouts int) {
 			})
 			u.viol("layout.result_differs", cause, fmt.Sprintf("CountingWindow results differ between the canonical layout and layout %s:\n canonical: %s\n layout:    %s\nlayout text: %q", c.Layouts[i].features(), core.J(a), core.J(b), c.Texts[i]), "cause", cause)
 		}
-		if s.Having == nil && s.Limit == 0 && !s.Distinct && outs[0].Err == "" {
+		if s.Having == nil && s.Limit == 0 && !s.LimitZero && !s.Distinct && outs[0].Err == "" {
 			want := c11RefAgg(s, rows, keys)
 			got := outs[0].Raw
 			ok := len(got) == len(want)
